@@ -256,6 +256,16 @@ void preempt_point() {
         K.stats.step_limit = true;
         abort_run("step limit exceeded (livelock?)");
     }
+    if (K.knobs.deschedule_per_65536 && K.cur && K.rng.below(65536) < K.knobs.deschedule_per_65536) {
+        // long preemption: the fiber stays runnable in principle but does not get the processor for a while
+        Fiber* self = K.cur;
+        ++K.stats.descheduled;
+        self->st = Fiber::Blocked;
+        self->pred = nullptr;
+        self->deadline = K.now + 1 + static_cast<std::int64_t>(K.rng.below(static_cast<std::uint64_t>(K.knobs.deschedule_max_ns)));
+        dispatch();
+        return;
+    }
     if (K.knobs.preempt_per_1024 == 0) return;
     if (K.rng.below(1024) < K.knobs.preempt_per_1024) dispatch();
 }
